@@ -86,13 +86,13 @@ def base_from_witness(w, prefix="b"):
         return None
 
 
-def outcome(prop, witness, label=None, info=None):
+def outcome(prop, witness, label=None, info=None, known=None):
     """PathOutcome that also carries the clock stub's value when the path consulted the clock"""
     clk = core.CUR.notes.get("clock")
     if clk is not None:
         witness = dict(witness)
         witness.update(dates.witness_of(clk, "clock"))
-    return PathOutcome(prop, witness, label, info)
+    return PathOutcome(prop, witness, label, info, known)
 
 
 def clock_from_witness(w):
